@@ -19,6 +19,7 @@ structure Strm where
   -- ghost ledger
   granted : Int
   sent : Nat
+  fins : Nat := 0             -- ghost: DATA frames with END_STREAM sent on this stream
 deriving Repr
 
 structure St where
@@ -42,6 +43,7 @@ structure Data where
   id : Nat
   len : Nat
   availBefore : Int           -- ghost: min(stream allowance, connection allowance) before sending
+  fin : Bool := false         -- END_STREAM: this frame takes the last octet owed
 deriving Repr
 
 def maxFrame : Nat := 16384
@@ -57,9 +59,11 @@ def sendData (s : Strm) (cw : Int) (csent : Nat) : Strm × Int × Nat × List Da
       have : step > 0 := by
         have : avail.toNat > 0 := by omega
         simp only [step, maxFrame]; omega
-      let s' := { s with pending := s.pending - step, window := s.window - step, sent := s.sent + step }
+      let fin := s.pending - step == 0
+      let s' := { s with pending := s.pending - step, window := s.window - step, sent := s.sent + step,
+                         fins := s.fins + (if fin then 1 else 0) }
       let (s'', cw', cs', outs) := sendData s' (cw - step) (csent + step)
-      (s'', cw', cs', ⟨s.id, step, avail⟩ :: outs)
+      (s'', cw', cs', ⟨s.id, step, avail, fin⟩ :: outs)
 termination_by s.pending
 decreasing_by
   show s.pending - step < s.pending
@@ -98,7 +102,7 @@ def step (st : St) : Ev → St × List Data
   | .opn id =>
     match findStrm id st.strms with
     | some _ => (st, [])
-    | none => ({ st with strms := st.strms ++ [⟨id, st.initWin, false, true, 0, st.initWin, 0⟩] }, [])
+    | none => ({ st with strms := st.strms ++ [⟨id, st.initWin, false, true, 0, st.initWin, 0, 0⟩] }, [])
   | .done id len =>
     match findStrm id st.strms with
     | none => (st, [])
